@@ -15,6 +15,10 @@ type concurrentStreamMapperProvider[SRC any, TGT any] struct {
 	tgtChan     chan shpanstream.Result[TGT]
 	mapper      func(context.Context, SRC) (TGT, error)
 	eofCtx      context.Context
+
+	// cancelProducer stops the goroutine that reads the source, producerStopped is closed once it no longer touches the source
+	cancelProducer  context.CancelFunc
+	producerStopped chan struct{}
 }
 
 func (c *concurrentStreamMapperProvider[SRC, TGT]) Close() {
@@ -30,13 +34,27 @@ func mapStreamConcurrently[SRC any, TGT any](
 	if concurrency <= 0 {
 		return Error[TGT](fmt.Errorf("concurrency must be > 0"))
 	}
-	return NewDownStream[SRC, TGT](
-		src,
-		&concurrentStreamMapperProvider[SRC, TGT]{
-			concurrency: concurrency,
-			mapper:      mapper,
-		},
+	c := &concurrentStreamMapperProvider[SRC, TGT]{
+		concurrency: concurrency,
+		mapper:      mapper,
+	}
+	// The source is read by the producer goroutine, which must not be inside (or about to call) the source
+	// when the source is closed. Lifecycle elements are closed in order, so an element placed before the
+	// source's own elements stops the producer and waits for it right before the source gets closed.
+	guardedSrc := newStream(
+		src.provider,
+		append([]Lifecycle{NewLifecycle(nil, c.stopProducer)}, src.allLifecycleElement...),
 	)
+	return NewDownStream[SRC, TGT](guardedSrc, c)
+}
+
+// stopProducer stops the goroutine reading the source stream and waits until it no longer uses the source
+func (c *concurrentStreamMapperProvider[SRC, TGT]) stopProducer() {
+	if c.cancelProducer != nil {
+		c.cancelProducer()
+		<-c.producerStopped
+		c.cancelProducer = nil
+	}
 }
 
 func (c *concurrentStreamMapperProvider[SRC, TGT]) Open(ctx context.Context, srcProviderFunc ProviderFunc[SRC]) error {
@@ -96,6 +114,11 @@ func (c *concurrentStreamMapperProvider[SRC, TGT]) Open(ctx context.Context, src
 		}()
 	}
 
+	producerCtx, cancelProducer := context.WithCancel(ctx)
+	producerStopped := make(chan struct{})
+	c.cancelProducer = cancelProducer
+	c.producerStopped = producerStopped
+
 	go func() {
 
 		// Closing the streams when exiting
@@ -107,14 +130,16 @@ func (c *concurrentStreamMapperProvider[SRC, TGT]) Open(ctx context.Context, src
 			wg.Wait()
 			close(c.tgtChan)
 		}()
+		// Signal (before waiting for the workers) that the source stream is not used anymore
+		defer close(producerStopped)
 		for {
 			select {
-			case <-ctx.Done():
+			case <-producerCtx.Done():
 
 				return
 			default:
 				// Read from the source stream
-				v, err := pullRecovering(ctx, srcProviderFunc)
+				v, err := pullRecovering(producerCtx, srcProviderFunc)
 				if err != nil {
 					if err == io.EOF {
 						// If the source stream is done, we need to deplete the buffer and only then return the EOF
@@ -127,14 +152,14 @@ func (c *concurrentStreamMapperProvider[SRC, TGT]) Open(ctx context.Context, src
 						select {
 
 						case c.srcChan <- shpanstream.Result[SRC]{Err: err}:
-						case <-ctx.Done():
+						case <-producerCtx.Done():
 							return
 						}
 					}
 				} else {
 					select {
 					case c.srcChan <- shpanstream.Result[SRC]{Value: v}:
-					case <-ctx.Done():
+					case <-producerCtx.Done():
 						return
 					}
 				}
